@@ -39,6 +39,8 @@ MODULES = [
     "counts",
     "windows",
     "positions",
+    "modstate",
+    "memo",
 ]
 
 
